@@ -577,7 +577,7 @@ class Interp:
         except _Return as r:
             return r.v
         except _PyRaise as pr:
-            raise Undecided(f"the fragment raises {pr.exc} on the analysed configuration")
+            raise RaisedInFragment(pr.exc)  # leaves this function as an exception a caller's `except` may name
         return None
 
     def call_function(self, fnode, args, kwargs=None, bind_self=False):
@@ -701,13 +701,24 @@ class Interp:
             # (AttributeError on a closed object) are dispatched to the matching handler
             try:
                 self.exec_block(st.body)
-            except _PyRaise as pr:
+            except (_PyRaise, RaisedInFragment) as pr:
+                # exceptions of python itself modelled by the interpreter (AttributeError on a closed object, KeyError ...)
+                # and `raise X(...)` statements reached in interpreted callees: dispatched by class NAME (the handler's
+                # last dotted component; `Exception` / a bare except take everything)
+                exc_ = pr.exc if isinstance(pr, _PyRaise) else pr.exc_name.split(".")[-1]
+                if exc_ in ("?", "<re-raise>"):
+                    raise
                 for h in st.handlers:
                     names = [] if h.type is None else [A.call_attr(ast.Call(func=t, args=[], keywords=[])) for t in (h.type.elts if isinstance(h.type, ast.Tuple) else [h.type])]
-                    if h.type is None or pr.exc in names or "Exception" in names or "BaseException" in names:
+                    if h.type is None or exc_ in names or "Exception" in names or "BaseException" in names:
                         if h.name:
-                            self.env[h.name] = Obj(pr.exc)
-                        self.exec_block(h.body)
+                            self.env[h.name] = Obj(exc_)
+                        try:
+                            self.exec_block(h.body)
+                        except RaisedInFragment as again:
+                            if again.exc_name == "<re-raise>":
+                                raise RaisedInFragment(exc_)  # a bare `raise` in the handler: the exception being handled
+                            raise
                         break
                 else:
                     self.exec_block(st.finalbody)
